@@ -520,9 +520,13 @@ func CoordinatorMain(o *Opts) int {
 		violLines = append(violLines, fmt.Sprintf("VIOLATION property=%s replay=%s", o.ID, rp))
 		fmt.Printf("  violating key: %s (%d cases) witness=%s\n", f.Key, f.Count, Short(mustJSON(f.Witness), 600))
 	}
-	if len(unreproducible) > 0 {
+	if len(unreproducible) > 0 && violations == 0 {
 		fmt.Fprintf(os.Stderr, "HARNESS-ERROR: %d finding(s) did not reproduce 5/5 in fresh processes (nondeterminism leaked into the harness): %v\n", len(unreproducible), unreproducible)
 		return 2
+	}
+	if len(unreproducible) > 0 {
+		// other findings of this run did reproduce 5/5 and carry the verdict; these are listed, not counted
+		fmt.Printf("  UNCONFIRMED (seen, but not reproduced 5/5 in fresh processes; not counted): %v\n", unreproducible)
 	}
 	if len(novel) > maxConfirm {
 		fmt.Printf("  (+%d further unlisted finding keys not individually re-executed; first: %s)\n", len(novel)-maxConfirm, novel[maxConfirm].Key)
